@@ -1,0 +1,37 @@
+//go:build verif
+
+package index
+
+import (
+	"context"
+
+	"github.com/ipld/go-storethehash/store/types"
+)
+
+// VerifGC runs one index garbage collection cycle synchronously. It must not
+// be called while the background collector of the same index is running a
+// cycle (the collector's resume cursor is private to one goroutine).
+func (index *Index) VerifGC(ctx context.Context, scanFree bool) (int64, int, error) {
+	return index.gc(ctx, scanFree)
+}
+
+// VerifBuckets returns a copy of the in-memory bucket table.
+func (index *Index) VerifBuckets() []types.Position {
+	index.bucketLk.RLock()
+	defer index.bucketLk.RUnlock()
+	out := make([]types.Position, len(index.buckets))
+	copy(out, index.buckets)
+	return out
+}
+
+// VerifFileNum returns the number of the index file currently written to.
+func (index *Index) VerifFileNum() uint32 {
+	index.flushLock.Lock()
+	defer index.flushLock.Unlock()
+	return index.fileNum
+}
+
+// VerifParams returns the index bit size and file size limit.
+func (index *Index) VerifParams() (uint8, uint32) {
+	return index.sizeBits, index.maxFileSize
+}
